@@ -42,6 +42,7 @@ def main():
         rc = chk.finish()
     except tlc.TlcError as e:
         print("MACHINERY-FAILURE (TLC): %s" % e)
+        _cleanup()
         sys.exit(2)
     except SystemExit:
         raise
@@ -49,7 +50,14 @@ def main():
         traceback.print_exc()
         print("MACHINERY-FAILURE: unexpected exception in the harness (not a verdict about the code)")
         sys.exit(2)
+    _cleanup()
     sys.exit(rc)
+
+
+def _cleanup():
+    import shutil
+    from harness import tlc
+    shutil.rmtree(tlc.WORK, ignore_errors=True)
 
 
 if __name__ == "__main__":
